@@ -132,6 +132,7 @@ ThreadPool::ThreadPool(size_t n, size_t poolLoadMultiplier)
       }));
     }
   }
+  DISPENSO_VERIF_EVENT("pool.threads_started", this, adjustedN, 0);
 }
 
 ThreadPool::PerThreadData::~PerThreadData() {}
@@ -189,6 +190,7 @@ void ThreadPool::markIdle(bool& isWorking) {
 
 template <bool kUseWakeSleep>
 void ThreadPool::threadLoopImpl(PerThreadData& data, int32_t ringIndex) {
+  DISPENSO_VERIF_THREAD(1, this, ringIndex);
   moodycamel::ConsumerToken ctoken(work_);
   moodycamel::ProducerToken ptoken(work_);
 
@@ -215,6 +217,7 @@ void ThreadPool::threadLoopImpl(PerThreadData& data, int32_t ringIndex) {
       ++localWorkDone;
       if (localWorkDone >= kWorkBatchSize) {
         workRemaining_.fetch_sub(localWorkDone, std::memory_order_relaxed);
+        DISPENSO_VERIF_EVENT("pool.wr.sub", this, localWorkDone, 2);
         localWorkDone = 0;
       }
       failCount = 0;
@@ -223,6 +226,7 @@ void ThreadPool::threadLoopImpl(PerThreadData& data, int32_t ringIndex) {
     if (localWorkDone > 0) {
       markWorkDone(isWorking);
       workRemaining_.fetch_sub(localWorkDone, std::memory_order_relaxed);
+      DISPENSO_VERIF_EVENT("pool.wr.sub", this, localWorkDone, 3);
       failCount = 0;
       continue;
     }
@@ -238,6 +242,7 @@ void ThreadPool::threadLoopImpl(PerThreadData& data, int32_t ringIndex) {
     {
       OnceFunction stealTask;
       if (myStealRing.try_pop(stealTask)) {
+        DISPENSO_VERIF_EVENT("pool.pop.steal", this, myStealIdx, 2);
         markWorkDone(isWorking);
         executeNext(std::move(stealTask));
         failCount = 0;
@@ -285,6 +290,7 @@ void ThreadPool::threadLoopImpl(PerThreadData& data, int32_t ringIndex) {
   }
 
   markIdle(isWorking);
+  DISPENSO_VERIF_THREAD(0, this, ringIndex);
 }
 
 // Explicit instantiations so the linker finds them.
@@ -300,6 +306,7 @@ void ThreadPool::resizeLocked(ssize_t sn) {
   if (n == threads_.size()) {
     return;
   }
+  DISPENSO_VERIF_EVENT("pool.resize.begin", this, n, threads_.size());
 
   // Stop ALL threads, drain work, rebuild wake state, restart.
   // Resize is a rare operation; correctness and simplicity take priority
@@ -310,34 +317,43 @@ void ThreadPool::resizeLocked(ssize_t sn) {
   for (auto& t : threads_) {
     t.stop();
   }
+  DISPENSO_VERIF_EVENT("pool.stop_all", this, 0, 0);
   {
     auto* ws = detail::consumeLoad(wakeState_);
     if (ws) {
       ws->wakeAll();
     }
   }
+  DISPENSO_VERIF_EVENT("pool.wake_all", this, 0, 0);
 
   // Drain central queue while threads are stopping
   while (tryExecuteNext()) {
   }
+  DISPENSO_VERIF_EVENT("pool.drain.central.done", this, 0, 0);
 
+  DISPENSO_VERIF_EVENT("pool.join.begin", this, 0, 0);
   for (auto& t : threads_) {
     t.thread_.join();
   }
+  DISPENSO_VERIF_EVENT("pool.join.done", this, 0, 0);
   threads_.clear();
 
   // Drain all rings in the arena (including shadow entries from prior resize-up)
   for (size_t i = 0; i < rings_.size(); ++i) {
     OnceFunction task;
     while (rings_[i].try_pop(task)) {
+      DISPENSO_VERIF_EVENT("pool.drain.ring", this, i, 0);
       task();
     }
+    DISPENSO_VERIF_EVENT("pool.drain.ring.done", this, i, 0);
   }
   for (size_t i = 0; i < stealRings_.size(); ++i) {
     OnceFunction task;
     while (stealRings_[i].try_pop(task)) {
+      DISPENSO_VERIF_EVENT("pool.drain.steal", this, i, 0);
       task();
     }
+    DISPENSO_VERIF_EVENT("pool.drain.steal.done", this, i, 0);
   }
 
   // Rebuild infrastructure for new size — no lock needed.
@@ -348,12 +364,14 @@ void ThreadPool::resizeLocked(ssize_t sn) {
       rings_.grow_by(n - rings_.size());
     }
     numRings_.store(n, std::memory_order_release);
+    DISPENSO_VERIF_EVENT("pool.store.numRings", this, n, 0);
 
     size_t newNumSteal = (n + stealRingSharing_ - 1) / stealRingSharing_;
     if (newNumSteal > stealRings_.size()) {
       stealRings_.grow_by(newNumSteal - stealRings_.size());
     }
     numStealRings_.store(newNumSteal, std::memory_order_release);
+    DISPENSO_VERIF_EVENT("pool.store.numSteal", this, newNumSteal, 0);
 
     auto newWake = detail::makeAligned<detail::PoolWakeState>(static_cast<int32_t>(n));
     auto* rawNewWake = newWake.get();
@@ -365,11 +383,13 @@ void ThreadPool::resizeLocked(ssize_t sn) {
     wakeState_.store(rawNewWake, std::memory_order_release);
   } else {
     numStealRings_.store(0, std::memory_order_release);
+    DISPENSO_VERIF_EVENT("pool.store.numSteal", this, 0, 0);
     wakeState_.store(nullptr, std::memory_order_release);
   }
 
   poolLoadFactor_.store(static_cast<ssize_t>(n * poolLoadMultiplier_), std::memory_order_relaxed);
   numThreads_.store(sn, std::memory_order_relaxed);
+  DISPENSO_VERIF_EVENT("pool.store.numThreads", this, sn, 0);
   numNotWorking_.store(static_cast<int32_t>(n), std::memory_order_relaxed);
 
   // Start new threads (after counter setup so a thread that immediately finds
@@ -387,13 +407,16 @@ void ThreadPool::resizeLocked(ssize_t sn) {
       }));
     }
   }
+  DISPENSO_VERIF_EVENT("pool.threads_started", this, n, 0);
 
   if (!sn) {
     // Pool will run future tasks inline since we have no threads, but we still need to empty
     // current set of tasks
     while (tryExecuteNext()) {
     }
+    DISPENSO_VERIF_EVENT("pool.drain.central.done", this, 1, 0);
   }
+  DISPENSO_VERIF_EVENT("pool.resize.end", this, n, 0);
 }
 
 ThreadPool::~ThreadPool() {
@@ -405,6 +428,7 @@ ThreadPool::~ThreadPool() {
   // useful diagnostic to learn that the mutex is already locked when we reach this point.
   std::unique_lock<std::mutex> lk(threadsMutex_, std::try_to_lock);
   assert(lk.owns_lock());
+  DISPENSO_VERIF_EVENT("pool.dtor.begin", this, 0, 0);
 
   // Mark all threads as stopped first, then wake them all at once.
   // One-at-a-time stop+wake is fragile: a wake() can reach an already-awake
@@ -413,38 +437,49 @@ ThreadPool::~ThreadPool() {
   for (auto& t : threads_) {
     t.stop();
   }
+  DISPENSO_VERIF_EVENT("pool.stop_all", this, 1, 0);
   {
     auto* ws = detail::consumeLoad(wakeState_);
     if (ws) {
       ws->wakeAll();
     }
   }
+  DISPENSO_VERIF_EVENT("pool.wake_all", this, 1, 0);
 
   while (tryExecuteNext()) {
   }
+  DISPENSO_VERIF_EVENT("pool.drain.central.done", this, 2, 0);
 
+  DISPENSO_VERIF_EVENT("pool.join.begin", this, 1, 0);
   for (auto& t : threads_) {
     t.thread_.join();
   }
+  DISPENSO_VERIF_EVENT("pool.join.done", this, 1, 0);
   threads_.clear();
 
   // Drain central queue
   while (tryExecuteNext()) {
   }
+  DISPENSO_VERIF_EVENT("pool.drain.central.done", this, 3, 0);
 
   // Drain all rings in the arena (including shadow entries)
   for (size_t i = 0; i < rings_.size(); ++i) {
     OnceFunction task;
     while (rings_[i].try_pop(task)) {
+      DISPENSO_VERIF_EVENT("pool.drain.ring", this, i, 1);
       task();
     }
+    DISPENSO_VERIF_EVENT("pool.drain.ring.done", this, i, 1);
   }
   for (size_t i = 0; i < stealRings_.size(); ++i) {
     OnceFunction task;
     while (stealRings_[i].try_pop(task)) {
+      DISPENSO_VERIF_EVENT("pool.drain.steal", this, i, 1);
       task();
     }
+    DISPENSO_VERIF_EVENT("pool.drain.steal.done", this, i, 1);
   }
+  DISPENSO_VERIF_EVENT("pool.dtor.end", this, 0, 0);
   // wakeState_ graveyard freed by RAII (vector destructor)
 }
 ThreadPool& globalThreadPool() {
